@@ -352,12 +352,56 @@ pub const CAP: usize = 96;
 /// split-off front cannot grow into its sibling; the real crate would reallocate, the model
 /// reports "bytes model: capacity exceeded").  `hw` is shared per storage: every byte at an index
 /// >= *hw has never been written and is zero.
-pub struct BytesMut {
+pub struct Meta {
     store: *mut [u8; CAP],
     hw: *mut usize,
     start: usize,
     len: usize,
     limit: usize,
+}
+/// Default: the window lives inline.  Feature `cap_heap`: the window lives in its own leaked heap
+/// cell, so that a `BytesMut` kept in the state of a (nested) coroutine is mutated without
+/// rewriting the coroutine object (CBMC treats coroutine state, a union, as one bit-vector; every
+/// `self.len += n` inside it was a whole-object update).
+#[cfg(not(feature = "cap_heap"))]
+pub struct BytesMut {
+    meta: Meta,
+}
+#[cfg(feature = "cap_heap")]
+pub struct BytesMut {
+    meta: *mut Meta,
+}
+impl BytesMut {
+    #[cfg(not(feature = "cap_heap"))]
+    #[inline]
+    fn mk(meta: Meta) -> BytesMut {
+        BytesMut { meta }
+    }
+    #[cfg(not(feature = "cap_heap"))]
+    #[inline]
+    fn f(&self) -> &Meta {
+        &self.meta
+    }
+    #[cfg(not(feature = "cap_heap"))]
+    #[inline]
+    fn fm(&mut self) -> &mut Meta {
+        &mut self.meta
+    }
+    #[cfg(feature = "cap_heap")]
+    #[inline]
+    fn mk(meta: Meta) -> BytesMut {
+        BytesMut { meta: Box::leak(Box::new(meta)) }
+    }
+    #[cfg(feature = "cap_heap")]
+    #[inline]
+    fn f(&self) -> &Meta {
+        unsafe { &*self.meta }
+    }
+    #[cfg(feature = "cap_heap")]
+    #[inline]
+    fn fm(&mut self) -> &mut Meta {
+        unsafe { &mut *self.meta }
+    }
 }
 unsafe impl Send for BytesMut {}
 unsafe impl Sync for BytesMut {}
@@ -389,38 +433,38 @@ impl BytesMut {
     #[inline]
     fn st(&self) -> &'static mut [u8; CAP] {
         // SAFETY: leaked storage; windows of different handles are disjoint.
-        unsafe { &mut *self.store }
+        unsafe { &mut *self.f().store }
     }
     #[inline]
     fn hwm(&self) -> &'static mut usize {
-        unsafe { &mut *self.hw }
+        unsafe { &mut *self.f().hw }
     }
     pub fn new() -> Self {
         let store: *mut [u8; CAP] = Box::leak(Box::new([0u8; CAP]));
         let hw: *mut usize = Box::leak(Box::new(0usize));
-        BytesMut { store, hw, start: 0, len: 0, limit: CAP }
+        BytesMut::mk(Meta { store, hw, start: 0, len: 0, limit: CAP })
     }
     pub fn with_capacity(_n: usize) -> Self {
         Self::new()
     }
     pub fn len(&self) -> usize {
-        self.len
+        self.f().len
     }
     pub fn is_empty(&self) -> bool {
-        self.len == 0
+        self.f().len == 0
     }
     pub fn capacity(&self) -> usize {
-        self.limit - self.start
+        self.f().limit - self.f().start
     }
     pub fn reserve(&mut self, _n: usize) {}
     pub fn resize(&mut self, n: usize, val: u8) {
-        if n <= self.len {
-            self.len = n;
+        if n <= self.f().len {
+            self.fm().len = n;
             return;
         }
-        assert!(self.start + n <= self.limit, "bytes model: capacity exceeded");
-        let from = self.start + self.len;
-        let to = self.start + n;
+        assert!(self.f().start + n <= self.f().limit, "bytes model: capacity exceeded");
+        let from = self.f().start + self.f().len;
+        let to = self.f().start + n;
         let hw = *self.hwm();
         if val == 0 {
             // bytes at index >= hw are zero already
@@ -440,51 +484,51 @@ impl BytesMut {
                 *self.hwm() = to;
             }
         }
-        self.len = n;
+        self.fm().len = n;
     }
     pub fn truncate(&mut self, n: usize) {
-        if n < self.len {
-            self.len = n;
+        if n < self.f().len {
+            self.fm().len = n;
         }
     }
     pub fn clear(&mut self) {
-        self.len = 0;
+        self.fm().len = 0;
     }
     pub fn extend_from_slice(&mut self, s: &[u8]) {
-        assert!(self.start + self.len + s.len() <= self.limit, "bytes model: capacity exceeded");
-        let base = self.start + self.len;
+        assert!(self.f().start + self.f().len + s.len() <= self.f().limit, "bytes model: capacity exceeded");
+        let base = self.f().start + self.f().len;
         let mut i = 0;
         while i < s.len() {
             self.st()[base + i] = s[i];
             i += 1;
         }
-        self.len += s.len();
+        self.fm().len += s.len();
         if *self.hwm() < base + s.len() {
             *self.hwm() = base + s.len();
         }
     }
     pub fn freeze(self) -> Bytes {
         let st: &'static [u8; CAP] = self.st();
-        Bytes::of(&st[self.start..self.start + self.len])
+        Bytes::of(&st[self.f().start..self.f().start + self.f().len])
     }
     pub fn split(&mut self) -> BytesMut {
-        let r = BytesMut { store: self.store, hw: self.hw, start: self.start, len: self.len, limit: self.start + self.len };
-        self.start += self.len;
-        self.len = 0;
+        let r = BytesMut::mk(Meta { store: self.f().store, hw: self.f().hw, start: self.f().start, len: self.f().len, limit: self.f().start + self.f().len });
+        self.fm().start += self.f().len;
+        self.fm().len = 0;
         r
     }
     pub fn split_to(&mut self, at: usize) -> BytesMut {
-        assert!(at <= self.len, "split_to out of bounds: {:?} <= {:?}", at, self.len);
-        let front = BytesMut { store: self.store, hw: self.hw, start: self.start, len: at, limit: self.start + at };
-        self.start += at;
-        self.len -= at;
+        assert!(at <= self.f().len, "split_to out of bounds: {:?} <= {:?}", at, self.f().len);
+        let front = BytesMut::mk(Meta { store: self.f().store, hw: self.f().hw, start: self.f().start, len: at, limit: self.f().start + at });
+        self.fm().start += at;
+        self.fm().len -= at;
         front
     }
     pub fn split_off(&mut self, at: usize) -> BytesMut {
-        assert!(at <= self.len, "split_off out of bounds: {:?} <= {:?}", at, self.len);
-        let back = BytesMut { store: self.store, hw: self.hw, start: self.start + at, len: self.len - at, limit: self.limit };
-        self.len = at;
-        self.limit = self.start + at;
+        assert!(at <= self.f().len, "split_off out of bounds: {:?} <= {:?}", at, self.f().len);
+        let back = BytesMut::mk(Meta { store: self.f().store, hw: self.f().hw, start: self.f().start + at, len: self.f().len - at, limit: self.f().limit });
+        self.fm().len = at;
+        self.fm().limit = self.f().start + at;
         back
     }
 }
@@ -492,16 +536,16 @@ impl Deref for BytesMut {
     type Target = [u8];
     fn deref(&self) -> &[u8] {
         let st: &'static [u8; CAP] = self.st();
-        &st[self.start..self.start + self.len]
+        &st[self.f().start..self.f().start + self.f().len]
     }
 }
 impl DerefMut for BytesMut {
     fn deref_mut(&mut self) -> &mut [u8] {
-        let end = self.start + self.len;
+        let end = self.f().start + self.f().len;
         if *self.hwm() < end {
             *self.hwm() = end;
         }
-        &mut self.st()[self.start..end]
+        &mut self.st()[self.f().start..end]
     }
 }
 impl AsRef<[u8]> for BytesMut {
@@ -521,15 +565,15 @@ impl BufMut for BytesMut {
 }
 impl Buf for BytesMut {
     fn remaining(&self) -> usize {
-        self.len
+        self.f().len
     }
     fn chunk(&self) -> &[u8] {
         self.deref()
     }
     fn advance(&mut self, cnt: usize) {
-        assert!(cnt <= self.len, "cannot advance past `remaining`: {:?} <= {:?}", cnt, self.len);
-        self.start += cnt;
-        self.len -= cnt;
+        assert!(cnt <= self.f().len, "cannot advance past `remaining`: {:?} <= {:?}", cnt, self.f().len);
+        self.fm().start += cnt;
+        self.fm().len -= cnt;
     }
 }
 impl From<&[u8]> for BytesMut {
